@@ -21,6 +21,7 @@ type ValidateCall struct {
 	Msg    string
 	Flat   map[string]string // flattened document (nil if it did not parse)
 	Err    string            // flatten error
+	Tag    string            // set by OnValidate (the reconcile step that asked)
 }
 
 // Plugin is a fake ModelPluginServiceClient for one model. Its verdict is a
@@ -35,6 +36,8 @@ type Plugin struct {
 	calls []ValidateCall
 	// PathValueCalls records (prefix, json) of GetPathValues calls.
 	PathValueCalls [][2]string
+	// OnValidate, when set, returns a tag stored with the call.
+	OnValidate func() string
 }
 
 // NewPlugin builds the fake for a schema.
@@ -65,6 +68,9 @@ func (s *chunkStream) CloseAndRecv() (*adminapi.ValidateConfigResponse, error) {
 	} else {
 		call.Flat = flat
 		call.Valid, call.Msg = model.PluginAccepts(flat)
+	}
+	if s.p.OnValidate != nil {
+		call.Tag = s.p.OnValidate()
 	}
 	s.p.mu.Lock()
 	call.Seq = len(s.p.calls)
